@@ -80,7 +80,7 @@ def normalise_gj(fn):
     (c) a shadow of the search result - a variable B that is assigned next to every assignment `I = R` of an index variable, always as the same expression F(R) (`bigrow = row;
         big = abs(m[nt*row + col])`) - is replaced by F(I) and its assignments dropped: B == F(I) is an invariant."""
     from verif_static import norm as N_
-    new = N_.clone(fn)
+    new = M.descending_ranges_ascending(fn)          # (e) `for rb in range(eqns - 1, -1, -1)` is `for k in range(eqns): rb = eqns - 1 - k`
 
     def stores(node, name):
         return [x for x in ast.walk(node) if isinstance(x, ast.Name) and x.id == name and isinstance(x.ctx, ast.Store)]
@@ -688,6 +688,39 @@ def rule_eigen_wrapper(chk):
     chk.decide(oks, 'eigen-scaling-wrapper', 'tql2:shift-taken-off-every-remaining-eigenvalue', node=accum[0] if accum else q, file=L3, func='tql2',
                detail_bad='%s: f is added back to every eigenvalue finalised later, so an eigenvalue outside the shifted range comes out too large by f (a block-diagonal matrix: the '
                           'decoupled last entry)' % whys, detail_ok='d[i] -= h for i in [l+2, n); f += h; d[l], d[l+1] recomputed')
+    # tql2: a rotation sweep `for i in range(...): e[i+1] = ...` overwrites the sub-diagonal entries it passes; the closing formula of the iteration needs the entry next to
+    # the deflation point as it was BEFORE the sweep (kept in a local), so after the sweep nothing may read, straight from the array, the first or the last element the
+    # sweep has stored into
+    nsw, stale = 0, []
+    for lp in [x for x in ast.walk(q) if isinstance(x, ast.For) and isinstance(x.target, ast.Name) and isinstance(x.iter, ast.Call) and U(x.iter.func) in ('range', 'prange')]:
+        iv = lp.target.id
+        ra = lp.iter.args
+        if len(ra) == 3 and U(ra[2]).replace(' ', '') == '-1':
+            first_i, last_i = ra[0], ast.BinOp(left=ra[1], op=ast.Add(), right=ast.Constant(value=1))
+        elif len(ra) == 2:
+            first_i, last_i = ra[0], ast.BinOp(left=ra[1], op=ast.Sub(), right=ast.Constant(value=1))
+        else:
+            continue
+        par = getattr(lp, 'parent', None)
+        blk = next((b_ for f_ in ('body', 'orelse') for b_ in [getattr(par, f_, None)] if isinstance(b_, list) and any(x is lp for x in b_)), None)
+        if blk is None:
+            continue
+        after = blk[[k_ for k_, x in enumerate(blk) if x is lp][0] + 1:]
+        for st in [x for x in lp.body if isinstance(x, ast.Assign) and isinstance(x.targets[0], ast.Subscript) and isinstance(x.targets[0].value, ast.Name)
+                   and iv in [y.id for y in ast.walk(x.targets[0].slice) if isinstance(y, ast.Name)]]:
+            arr = st.targets[0].value.id
+            if arr not in ('e', 'd'):
+                continue
+            ends = [_subst(st.targets[0].slice, {iv: first_i}), _subst(st.targets[0].slice, {iv: last_i})]
+            nsw += 1
+            for a_ in after:
+                for x in ast.walk(a_):
+                    if isinstance(x, ast.Subscript) and isinstance(x.ctx, ast.Load) and isinstance(x.value, ast.Name) and x.value.id == arr and any(same(x.slice, e_) for e_ in ends):
+                        stale.append((getattr(x, 'lineno', 0), U(x), U(lp.iter)))
+    chk.decide(nsw > 0 and not stale, 'eigen-scaling-wrapper', 'tql2:values-the-sweep-overwrites-are-saved-before-it', node=q, file=L3, func='tql2',
+               detail_bad='%s: after the rotation sweep the array holds the new sub-diagonal / diagonal entry there, the closing formula of the QL step needs the one from before the sweep (wrong '
+                          'eigenvalues for matrices that couple all three directions)' % ('; '.join('line %d reads %s after the sweep over %s has stored into it' % s_ for s_ in stale) or 'no sweep found'),
+               detail_ok='%d stores of rotation sweeps: no element a sweep stored first or last is read from the array afterwards in the same pass' % nsw)
     z = M.find_func(t, 'zero_matrix_case')
     M.set_parents(z)
     dz = [a for a in ast.walk(z) if isinstance(a, ast.Assign) and isinstance(a.targets[0], ast.Subscript) and U(a.targets[0].value) == 'd']
